@@ -8,6 +8,18 @@ TECH = "symbolic execution of the real /repo code (CrossHair 0.0.110 + z3 5.1), 
 
 # property -> (level text, level note, design section, technique)
 CLAIMED = {
+    "C01": (
+        "Bounded solver-based check of Pipeline.map(parallel=False) on 17 pipeline templates (element-wise, zip, outer product, partial and "
+        "full reductions, generator with internal shape, internal axis leading/trailing, tuple outputs, 2-D ndarray inputs, rank-3 outer "
+        "product with middle-axis reduction, unlisted parameters, re-used axis names, no-MapSpec upstream, mixed-rank zip, bound/default "
+        "precedence) x storages (dict, file_array; dict_sub in the thorough tier): every element of every output and of load_outputs equals an "
+        "independent denotational evaluator for ALL integer input values (distinguishing linear forms) and all axis sizes in the bound; each "
+        "function is called exactly once per output index.",
+        "Trusted: z3, CrossHair path exhaustion and builtin models, token pickle (S3), message-format stub (S2). Axis sizes are case-split "
+        "(1..3 dict / 1..2 file_array quick; 1..3 thorough). Outside: sizes > 3, rank > 3, zarr, real shared_memory_dict, parallel=True (C03).",
+        "6 C01",
+        TECH,
+    ),
     "C07": (
         "Bounded solver-based check: normalize_key and select_by_mask are confirmed over all paths for every mask of rank <= 3 with "
         "unbounded integer keys and axis sizes; DictArray and FileArray operation sequences (two dumps, one read of every kind, "
